@@ -49,6 +49,8 @@ const defs = `(do
   (defmacro forever2 (fn (x) (list 'forever2 (list 'quote x))))
   (def cond-loop (fn (n) (cond (< n 0) 0 true (cond-loop (+ n 1)))))
   (def or-loop (fn (n) (or nil (or-loop n))))
+  (def self-atom (atom nil))
+  (do (reset! self-atom self-atom) nil)
   (def shared-atom (atom 0))
   (def other-atom (atom 0)))`
 
@@ -81,10 +83,13 @@ var kernels = map[string]string{
 	"swap-self-nested": "(swap! shared-atom (fn (x) (swap! shared-atom (fn (y) (+ y 1)))))",
 	// the evaluation and its own future swap two atoms in opposite order from inside their update functions
 	"swap-crossed-with-future": "(let (f (future (swap! other-atom (fn (x) (do (sleep 30) (swap! shared-atom (fn (y) (+ y 1))) x))))) (do (swap! shared-atom (fn (y) (do (sleep 30) (swap! other-atom (fn (x) (+ x 1))) y))) (deref f) (spin)))",
-	"let-value-loop":           "(let (a (up 0)) a)",
-	"argument-loop":            "(+ 1 (up 0))",
-	"vector-literal-loop":      "[1 (spin) 3]",
-	"eval-loop":                "(eval '(spin))",
+	// the same with a builtin as the update function (nothing inside it looks at the context): the atom holds itself,
+	// so (reset! <old value> self-atom) changes the atom being swapped and every attempt loses
+	"swap-self-builtin":   "(swap! self-atom reset! self-atom)",
+	"let-value-loop":      "(let (a (up 0)) a)",
+	"argument-loop":       "(+ 1 (up 0))",
+	"vector-literal-loop": "[1 (spin) 3]",
+	"eval-loop":           "(eval '(spin))",
 }
 
 var kernelNames []string
